@@ -107,6 +107,17 @@ Theorem C06_refresh_flags : forall s vs s' l,
 Proof. exact refresh_flags_l. Qed.
 Print Assumptions C06_refresh_flags.
 
+(* the model's steps satisfy the decidable property step_prop, the predicate
+   the check evaluates after every operation on the node's own answers and pool
+   (proj = the (hash, flag) view of the pool; `agrees` = the node's "inputs
+   unspent" answers equal the model's computation and the verdict lists cover
+   the pool) *)
+Theorem C06_model_meets_step_prop : forall s o,
+  StronglySorted Z.lt (keys (pool s)) -> agrees s o ->
+  step_prop (proj (pool s)) (mkO o (snd (step s o)) (proj (pool (fst (step s o))))) = true.
+Proof. exact model_meets_step_prop_l. Qed.
+Print Assumptions C06_model_meets_step_prop.
+
 (* non-vacuity: A and its double spend A' are pooled, B is soft-flagged; a block
    with A' is accepted: A' leaves, A stays but its input is gone; Refresh flags
    A invalid, RemoveInvalid removes it; B turns valid when its soft verdict does *)
